@@ -51,6 +51,13 @@ fn bystanders_of(v: &[u8]) -> Vec<&'static str> {
 }
 
 pub fn judge_value(v: &[u8], sink: &mut Sink) -> (Verdict, bool) {
+    let sel = hash64(&v);
+    if sel & 3 != 0 {
+        sink.count("values_with_other_request_headers");
+        if (sel >> 2) & 3 == 3 {
+            sink.count("values_with_range_and_if_range");
+        }
+    }
     let got = match call(v) {
         None => return (Verdict::DontCare("not a HeaderValue".into()), false),
         Some(Err(p)) => return (Verdict::viol(format!("panic@{}", norm_loc(&p)), format!("should_gzip panicked on {:?}: {}", show(v), p)), false),
@@ -100,7 +107,7 @@ impl Prop for C16 {
         "exploration"
     }
     fn rule(&self, ctx: &Ctx) -> String {
-        format!("exhaustive: all lists of 1..={} elements over 66 elements (codings {{gzip, identity, *, br, deflate, x-gzip}} x weights {{none, 0, 0., 0.0, 0.000, 0.001, 0.5, 0.999, 1, 1., 1.000}}) x 4 whitespace layouts around ',' and ';'; absent / empty header; 16 coding names that merely resemble gzip / identity / * in ten list shapes; lists of 3 .. 5000 filler codings with the deciding element first, last or on both ends; all 1001 x 1001 pairs of qvalues in thousandths for (gzip, identity), (identity, gzip), (gzip, *), (*, identity), in padded and shortest spelling, and inside a four-element list; two- and three-element lists spread over 2 or 3 Accept-Encoding field lines (answer must equal what the first line alone or the comma-joined list gives); plus seeded random and mutated byte strings for the no-panic clause. Every list is a distinct case; non-trivial = grammatical and unambiguous under first/last/max/min-wins for repeated codings, compared with the RFC 7231 5.3.4 model (counted by the enumerator, which never repeats a list)", max_len(ctx))
+        format!("three quarters of the values are evaluated in a HeaderMap that also holds a value-derived subset of 11 other request headers (Range, If-Range, validators, Content-Encoding, TE, Accept, X-Accept-Encoding, ...; counters values_with_other_request_headers / values_with_range_and_if_range), which must not change the answer. exhaustive: all lists of 1..={} elements over 66 elements (codings {{gzip, identity, *, br, deflate, x-gzip}} x weights {{none, 0, 0., 0.0, 0.000, 0.001, 0.5, 0.999, 1, 1., 1.000}}) x 4 whitespace layouts around ',' and ';'; absent / empty header; 16 coding names that merely resemble gzip / identity / * in ten list shapes; lists of 3 .. 5000 filler codings with the deciding element first, last or on both ends; all 1001 x 1001 pairs of qvalues in thousandths for (gzip, identity), (identity, gzip), (gzip, *), (*, identity), in padded and shortest spelling, and inside a four-element list; two- and three-element lists spread over 2 or 3 Accept-Encoding field lines (answer must equal what the first line alone or the comma-joined list gives); plus seeded random and mutated byte strings for the no-panic clause. Every list is a distinct case; non-trivial = grammatical and unambiguous under first/last/max/min-wins for repeated codings, compared with the RFC 7231 5.3.4 model (counted by the enumerator, which never repeats a list)", max_len(ctx))
     }
     fn n_blocks(&self, ctx: &Ctx) -> usize {
         66 * max_len(ctx) + 17 + 12 + 6
